@@ -509,3 +509,9 @@ CHECKS["C16"]["text"] += (
 CHECKS["C01"]["text"] += (
     " Log lines include one with more UTF-8 bytes than characters beyond "
     "the default width (also in the C02 and C08 inputs).")
+CHECKS["C07"]["text"] += (
+    " BasinImpl transcribes the basin list written by Export.hdf5 (copy of "
+    "upstream basins, reference to the source, composition with the child's "
+    "root indices and with the filter) and TLC checks that every definition "
+    "addresses the file's own events (composed child maps: holds; pinned "
+    "commit: counter-example).")
